@@ -11,6 +11,8 @@
 //   rand      every use of math/rand, crypto/rand, base.NewRand
 //   go        every go statement
 //   float     every function that does float64 arithmetic or conversion
+//   flag      every read of a proposal flag common.IsProposalNNN() (they read the process-wide chain height)
+//   chainheight every direct common.GetBlockHeight / SetBlockHeight call
 // and prints Rangers/Generated/NondetSites.lean on stdout.
 package main
 
@@ -21,11 +23,15 @@ import (
 	"go/parser"
 	"go/token"
 	"go/types"
+	"math/big"
 	"os"
 	"path/filepath"
 	"sort"
 	"strings"
 )
+
+// hard-coded validator ids of removeUnusedValidator (Proposal010) / removeUnusedValidator1 (Proposal019 whitelist)
+var idLists = map[string][]string{}
 
 type site struct {
 	kind, file, fn, detail string
@@ -208,6 +214,14 @@ func main() {
 						continue
 					}
 					fn := fd.Name.Name
+					if rel == "src/core/vmexecutor.go" && (fn == "removeUnusedValidator" || fn == "removeUnusedValidator1") {
+						ast.Inspect(fd.Body, func(n ast.Node) bool {
+							if bl, ok := n.(*ast.BasicLit); ok && bl.Kind == token.STRING && strings.HasPrefix(bl.Value, "\"0x") {
+								idLists[fn] = append(idLists[fn], strings.Trim(bl.Value, "\"")[2:])
+							}
+							return true
+						})
+					}
 					if fd.Recv != nil && len(fd.Recv.List) > 0 {
 						fn = strings.TrimPrefix(exprString(fset, fd.Recv.List[0].Type), "*") + "." + fn
 					}
@@ -241,6 +255,16 @@ func main() {
 									if sel := info.Selections[se]; sel != nil && strings.Contains(sel.Recv().String(), "sync.Map") {
 										sites = append(sites, site{"syncrange", rel, fn, exprString(fset, se.X)})
 									}
+								}
+							}
+							if se, ok := x.Fun.(*ast.SelectorExpr); ok && strings.HasPrefix(se.Sel.Name, "IsProposal") {
+								if pk, ok := se.X.(*ast.Ident); ok && pk.Name == "common" {
+									sites = append(sites, site{"flag", rel, fn, se.Sel.Name})
+								}
+							}
+							if se, ok := x.Fun.(*ast.SelectorExpr); ok && (se.Sel.Name == "GetBlockHeight" || se.Sel.Name == "SetBlockHeight") {
+								if pk, ok := se.X.(*ast.Ident); ok && pk.Name == "common" {
+									sites = append(sites, site{"chainheight", rel, fn, se.Sel.Name})
 								}
 							}
 							if id, ok := x.Fun.(*ast.Ident); ok && id.Name == "float64" {
@@ -299,6 +323,16 @@ func main() {
 	}
 	sb.WriteString("]\n\n")
 	sb.WriteString("def siteKeys : List Nat := [" + strings.Join(keys, ", ") + "]\n\n")
+	for _, nm := range []struct{ fn, def string }{{"removeUnusedValidator", "unusedValidators010"}, {"removeUnusedValidator1", "whitelist019"}} {
+		var nums []string
+		for _, h := range idLists[nm.fn] {
+			v, ok := new(big.Int).SetString(h, 16)
+			if ok {
+				nums = append(nums, v.String())
+			}
+		}
+		fmt.Fprintf(&sb, "/-- validator ids hard-coded in core.%s (as numbers) -/\ndef %s : List Nat := [%s]\n\n", nm.fn, nm.def, strings.Join(nums, ", "))
+	}
 	sb.WriteString("end Rangers.Generated.NondetSites\n")
 	fmt.Print(sb.String())
 }
